@@ -39,7 +39,7 @@ class PipeNet:
         self.sched.ev(name, **kw)
 
 
-def run_once(sc, schedule, seed=None):
+def run_once(sc, schedule, seed=None, line_preempt=None):
     """sc: senders (list of payload bytes), write_caps, receivers (int), stream (bytes), read_cap.
     Returns (events for TraceSend, choices)."""
     import websocket
@@ -47,6 +47,32 @@ def run_once(sc, schedule, seed=None):
     net = PipeNet(sched)
     undo = schedworld.install(sched, net)
     out = {"ret": {}, "rret": []}
+    trig = {"n": 0, "fired": False}
+    if line_preempt is not None:
+        import websocket as _w
+        libdir = os.path.dirname(_w.__file__)
+
+        def tracer(frame, event, arg):
+            if not frame.f_code.co_filename.startswith(libdir):
+                return None
+            c = sched.cur()
+            if c is None or c.name == "main":
+                return None
+
+            def local(frame, event, arg):
+                if event == "line":
+                    trig["n"] += 1
+                    if trig["n"] == line_preempt and not trig["fired"]:
+                        trig["fired"] = True
+                        me = sched.cur()
+                        others = [t for t in sched.runnable() if t is not me and t.name != "main"]
+                        if others:
+                            sched.ev("preempt", func=frame.f_code.co_name, line=frame.f_lineno)
+                            sched.schedule = [others[0].name]
+                            sched.yield_("preempt")
+                return local
+            return local
+        sched.tracer = tracer
     try:
         ws = websocket.WebSocket(enable_multithread=True)
         sock = schedworld.SSocket(net)
@@ -128,6 +154,8 @@ def run_once(sc, schedule, seed=None):
         wire_ok = datas == sorted(bytes(p) for p in sc.get("senders", [])) and all(f["masked"] and f["fin"] for f in frames)
     except Exception:
         wire_ok = False
+    if line_preempt is not None:
+        ev[0]["lines"] = trig["n"]
     ev.append({"ev": "end", "receivers_done": rdone >= nrecv_msgs and nrecv_msgs > 0 or sc.get("receivers", 0) == 0, "wireOk": wire_ok})
     return ev, sched.choices
 
@@ -172,6 +200,11 @@ def scenarios(rng, tier):
     for rc in (1, 2):
         scs.append(dict(name="recvdata2_cap%s" % rc, receivers=2, stream=stream, recv_calls=3, read_cap=rc, senders=[], recv_api="recv_data",
                         bound=2, max_runs=400 if tier == "quick" else 4000))
+    # one preemption at (every n-th) source line of the library inside the receiving / sending threads
+    two = wire.sframe(1, b"m1") + wire.sframe(1, b"m2") + wire.sframe(2, b"\x01", 0) + wire.sframe(0, b"\x02", 1)
+    scs.append(dict(name="recv2_lines", receivers=2, stream=two, recv_calls=3, read_cap=None, senders=[], bound=0, max_runs=1,
+                    line_level=3 if tier == "quick" else 1))
+    scs.append(dict(name="send2_lines", senders=[b"\x01", b"\x02\x02"], write_caps=[3], bound=0, max_runs=1, line_level=3 if tier == "quick" else 1))
     if tier == "thorough":
         scs.append(dict(name="send4", senders=[bytes([i + 1] * 2) for i in range(4)], write_caps=[3], bound=1, max_runs=3000))
         scs.append(dict(name="recv3", receivers=3, stream=stream, recv_calls=3, read_cap=2, senders=[], bound=2, max_runs=3000))
@@ -189,6 +222,16 @@ def _explore_scenario(args):
             e["tid"] = tid
             e["i"] = i
         traces.append((tid, prefix, ev))
+    if sc.get("line_level"):
+        ev0, _ = run_once(sc, [], line_preempt=10 ** 9)
+        total = ev0[0].get("lines", 0)
+        for kline in range(1, total + 1, sc["line_level"]):
+            ev, choices = run_once(sc, [], line_preempt=kline)
+            tid = "%s#L%d" % (sc["name"], kline)
+            for i, e in enumerate(ev):
+                e["tid"] = tid
+                e["i"] = i
+            traces.append((tid, ["line", kline], ev))
     for j in range(nrandom):
         ev, choices = run_once(sc, [], seed=seed * 1000 + j)
         tid = "%s#r%d" % (sc["name"], j)
@@ -254,6 +297,8 @@ def main(ctx):
     for tid, prefix, ev in all_traces:
         ctx.case((tid.split("#")[0], tuple(prefix)), nontrivial=True)
     ctx.sample({"schedule": all_traces[3][0], "choices": all_traces[3][1], "events": [{k2: v2 for k2, v2 in e.items() if k2 not in ("offered", "stream")} for e in all_traces[3][2][:12]]})
+    ctx.remark("recv_data()/recv_data_frame() are not covered by the read lock: two threads calling them directly can tear a "
+               "fragmented message under one line-level preemption; C12's receivers are read as users of recv() (DESIGN 0a)")
     ctx.trusted += ["TLC 1.8", "deterministic scheduler vf/schedworld.py (yield points: lock acquire, transport send/recv)",
                     "harness decoder for the content of frames larger than 300 bytes"]
     ctx.assumptions += ["preemption only at blocking primitives (lock acquire, transport calls), bound %s" % "1-2"]
@@ -265,7 +310,10 @@ def replay(ctx, path):
     for sc in scenarios(rng, "thorough"):
         if sc["name"] == c["scenario"]:
             sched = c["schedule"]
-            ev, ch = run_once(sc, sched if sched[:1] != ["seed"] else [], seed=sched[1] if sched[:1] == ["seed"] else None)
+            if sched[:1] == ["line"]:
+                ev, ch = run_once(sc, [], line_preempt=sched[1])
+            else:
+                ev, ch = run_once(sc, sched if sched[:1] != ["seed"] else [], seed=sched[1] if sched[:1] == ["seed"] else None)
             for e in ev:
                 print({k: v for k, v in e.items() if k != "offered"})
     return 0
